@@ -28,7 +28,7 @@ Init == /\ mode = "server" /\ rows = {} /\ hfc = 0 /\ cc = -1 /\ cfc = -1 /\ mcc
 
 Ev(e) == /\ evs' = IF Export THEN Append(evs, e) ELSE evs
          /\ steps' = steps + 1 /\ steps < MaxSteps
-         /\ (Export => PrintT(<<"SCN", ToJson(Append(evs, e))>>))
+         /\ ((Export /\ (e.e \in {"setfc", "kill"} \/ steps + 1 = MaxSteps)) => PrintT(<<"SCN", ToJson(Append(evs, e))>>))
 
 RowsOf(R, s) == { r \in R : r.s = s }
 RECURSIVE CatRows(_)
